@@ -411,7 +411,7 @@ pub fn check_assignment<F: Float, D: Distance<F>>(
         if let Some(t) = &trans {
             if let Some(v) = t.get(i) {
                 let v = v.to_f64().unwrap_or(f64::NAN);
-                let tol = rdist_tol(pr.eps, pr.tiny, nr.rmin);
+                let tol = rdist_tol(metric, pr.eps, pr.tiny, nr.rmin);
                 obs.ensure((v - nr.rmin).abs() <= tol, "transform:not-minimal-distance", || {
                     format!("{what} row {i} = {:?}: transform gives {v:e}, smallest reduced distance is {:e} (tolerance {tol:e})", p64[i], nr.rmin)
                 });
@@ -431,7 +431,7 @@ pub fn check_converged_stats<F: Float, D: Distance<F>>(obs: &mut Obs, pr: &Prep<
     let k = f.cent64.len();
     let kp = (k * pr.p) as f64;
     let under = (kp * pr.tiny * pr.eps).sqrt();
-    let tau1 = tau * (1.0 + 64.0 * pr.eps) + under;
+    let tau1 = tau + dist_tol(metric, pr.eps, pr.tiny, tau) + under;
     let mut lower = vec![0.0f64; k];
     let mut maybe = vec![0.0f64; k];
     let mut ambiguous = 0usize;
@@ -441,7 +441,7 @@ pub fn check_converged_stats<F: Float, D: Distance<F>>(obs: &mut Obs, pr: &Prep<
         let d: Vec<f64> = f.cent64.iter().map(|c| dist(metric, x, c)).collect();
         let dmin = d.iter().cloned().fold(f64::INFINITY, f64::min);
         let cand: Vec<usize> = (0..k)
-            .filter(|&j| d[j] * (1.0 - 64.0 * pr.eps) <= dmin * (1.0 + 64.0 * pr.eps) + 2.0 * tau1 + under)
+            .filter(|&j| d[j] - dist_tol(metric, pr.eps, pr.tiny, d[j]) <= dmin + dist_tol(metric, pr.eps, pr.tiny, dmin) + 2.0 * tau1 + under)
             .collect();
         if cand.len() == 1 {
             lower[cand[0]] += 1.0;
@@ -455,6 +455,7 @@ pub fn check_converged_stats<F: Float, D: Distance<F>>(obs: &mut Obs, pr: &Prep<
         sum_r += r;
         sum_bound += match metric {
             Metric::L2 => tau1 * (2.0 * dmin + tau1),
+            Metric::Lp(_) => tau1 + rdist_tol(metric, pr.eps, pr.tiny, r),
             _ => tau1,
         };
     }
